@@ -189,6 +189,34 @@ def run(tier, seed):
             rep.check(rid, len(infos) == 1 and infos[0].cls == "B", "S-prompt: prompt_user's loop is input-driven on getchar (exit(-1) at end of input)", pu.file, None,
                       function="prompt_user", obj="S-prompt")
 
+        # S-consume: the primitive behind every derived class-B witness. read_bits(reader, n) hands on what peek_bits(reader, n) gave and,
+        # when that is not the failure value, takes n off reader->bits (so n >= 1 bits of the finite input are gone for good).
+        nrb = 0
+        for rb in mod.fns("read_bits"):
+            nrb += 1
+            M = Matcher(rb)
+            F = ctx.facts(rb)
+            pk = [c for c in rb.calls("peek_bits")]
+            ok = len(pk) == 1 and len(rb.params) == 2 and len(pk[0].ops) >= 2 and M.strip(pk[0].ops[1]) == ("v", rb.params[1].id)
+            if ok:
+                ok = all(M.strip(s_) == ("v", pk[0].id) for r in rets(rb) for s_, _ in F.sources(r.ops[0]))
+                sts = stores_to_field(mod, "BitStreamReader", "bits", [rb])
+                good = [st for st in sts if M.match(("bin", "sub", ("load", ("field", "BitStreamReader", "bits", ("param", 0))), ("param", 1)), st.ops[0], {}) is not None]
+                # the subtraction happens on every path on which the result is not negative
+                ok = ok and len(good) == 1 and len(sts) == 1 and M.find_fact(("sge", ("inst", pk[0].id), 0), F.at_inst(good[0]))[0] is not None
+                if ok:
+                    cut = {(good[0].block.id, s_) for s_ in good[0].block.succs}
+                    for r in rets(rb):
+                        # a return reached without the store must carry 'result < 0'
+                        if F.reaches_avoiding(0, r.block.id, cut) and good[0].block.id != r.block.id:
+                            if M.find_fact(("slt", ("inst", pk[0].id), 0), F.at_inst(r))[0] is None and not all(
+                                    M.find_fact(("slt", ("inst", pk[0].id), 0), F.on_edge(pb, r.block.id))[0] is not None or rb.dominates(good[0].block.id, pb)
+                                    for pb in r.block.preds):
+                                ok = False
+            rep.check(rid, ok, "S-consume (%s): read_bits returns peek_bits' result and subtracts n from reader->bits whenever that result is not negative" % rb.name,
+                      "%s:%s" % (rb.file, rb.line), None, function="read_bits", obj="S-consume")
+        rep.check(rid, nrb >= 1, "S-consume: read_bits found", "lib/bit_stream_reader.c", "%d copies" % nrb, function="read_bits", obj="S-consume-sites")
+
         # recursion
         rid = rep.rule("R1r", "recursion: every call-graph cycle is a direct recursion that advances a string argument, or the listed depth-2 cycle of the MacBinary pass-through", 1)
         # strongly connected components via simple DFS
